@@ -22,7 +22,7 @@ def shards(tier, seed, scale, per_arch, walk):
     if scale < 1:
         stride = stride * max(1, int(round(1 / scale)))     # development aid
     return common.mk_shards(NSHARDS, seed, tier, per_shard=per, scale=1.0,
-                            walk_rounds=rounds, walk_stride=stride)
+                            walk_rounds=ic.walk_rounds(rounds), walk_stride=stride)
 
 
 def _site(tb):
@@ -243,10 +243,7 @@ def floors(tier, counters, evaluations, which):
             continue
         if which == "C15":
             ok = counters.get("%s:asm_ok" % spec.name, 0)
-            # mepl: on the unchanged tree mn_mep.asm crashes for every little-endian instruction
-            # (known finding, fix candidate C15_mep_little_endian_asm); the assembler floor of MeP
-            # is therefore carried by mepb alone
-            if ok < 0.7 * dec and spec.name != "mepl":
+            if ok < 0.7 * dec:
                 miss.append("%s: only %d of %d decoded instructions got a candidate (< 70%%)" % (spec.name, ok, dec))
         else:
             ok = counters.get("%s:roundtrip_ok" % spec.name, 0)
